@@ -180,3 +180,21 @@ _reactive("C04",
           "subscription-graph half proved for all arenas; ownership-subtree half in progress",
           [{"theorem": "disposeNode_spec (in progress)", "missing": "exactly the ownership subtree is removed; cleanups run exactly once"}],
           ["--profile", "2"])
+
+# C10: full clause (i) delivered by Lemmas/Batch.lean + Props/C10.lean
+CHECKS["C10"]["lean_modules"] = ["SycVerif.Props.ReactiveBasic", "SycVerif.Props.C10"]
+CHECKS["C10"]["theorems"] += [RX + n for n in ["C10_batch_body_quiet", "C10_batch_inner_quiet", "C10_batch_stmt_quiet",
+                                               "C10_derived_values_kept", "C10_outermost_batch", "C10_propagate_nothing",
+                                               "C10_empty_batch", "c10_check", "C10_outermost_batch_nonvacuous"]]
+CHECKS["C10"]["manifest_text"] = ("Lean theorems for EVERY arena, fuel and nesting depth: while a batch is open, executing any batch body made of writes, silent writes, reads and nested batches (WriteOnly) runs no memo, effect or cleanup (trace unchanged), leaves every derived node and every edge/dirty/mark untouched (Quiet), keeps the batch open and appends exactly the written ids, in program order, to the queue; the outermost batch then performs ONE propagation from all written signals after the closure returned; an empty batch is a no-op (C10_batch_body_quiet, C10_outermost_batch, C10_empty_batch, D3 repaired). The real batch/start_batch/end_batch are exercised by nested-batch families and random batches and compared with the model; the oracle flags any run before the outermost batch ends.")
+CHECKS["C10"]["status"] = "clause (i) (nothing reacts inside a batch, any depth) and (iii) (empty batch is a no-op) proved for all arenas; clause (ii) consistency at the end inherits C01 (partial, known finding D1)"
+
+# C04: ownership-subtree theorems delivered by Lemmas/Dispose.lean + Props/C04.lean
+CHECKS["C04"]["lean_modules"] = ["SycVerif.Props.C04Edges", "SycVerif.Props.C04"]
+CHECKS["C04"]["theorems"] += [RX + n for n in ["runCleanups_inert", "disposeNode_spec", "disposeNode_total", "disposeNode_total_explicit",
+                                               "disposeNode_total_noCleanups", "disposeChildren_spec", "disposeNode_dead_after",
+                                               "dispose_dead", "dispose_idempotent", "dispose_twice_stmt", "exArena_ok", "exDispose"]]
+CHECKS["C04"]["manifest_text"] = ("Lean theorems for every arena with well-formed ownership (OwnershipOk) and a dangling-free symmetric subscription graph, any fuel: NodeHandle::dispose removes EXACTLY the ownership subtree (dead_iff), leaves every survivor unchanged except that subtree ids are erased from its subscriber/dependency lists (no signal retains a destroyed subscriber; repair D2), preserves all three invariants, runs the cleanups registered in the subtree exactly once each in pre-order with the tracker off (for cleanups made of reads), changes neither tracker/current/batch state, lowers the live count by the number of live owned nodes, is idempotent, and always terminates successfully (explicit fuel bound); dispose_children likewise. Re-run: unsubscribe everywhere, then link to exactly the tracked live nodes. On the real code, after every operation: live count = handles alive, dead exactly when it or an owner was disposed/re-ran, each cleanup exactly once, subscriber-list lengths = tracked reads by live computations (hook), all compared with the model.")
+CHECKS["C04"]["manifest_note"] = "Cleanup closures are arbitrary user code: the subtree theorem is proved for cleanups consisting of reads/track (InertBody); cleanups with side effects are covered by the correspondence and the oracle only. Preservation of OwnershipOk/NoDangling/EdgesSym by the whole interpreter (so that the theorems apply to every reachable state) is not yet a Lean theorem."
+CHECKS["C04"]["status"] = "structural theorems proved for all well-formed arenas (inert cleanups); lift to every reachable state of every program: not proved, covered by correspondence"
+CHECKS["C04"]["partial"] = [{"theorem": "exec_preserves_WF (planned)", "missing": "OwnershipOk, NoDangling and EdgesSym hold in every state reachable by DSL programs"}]
